@@ -149,6 +149,15 @@ Get(k, g) ==
              /\ bk' = [bk EXCEPT ![b][i].ref = TRUE]
              /\ last' = <<"get", k, g, 0, "hit", row[i].g>>
 
+(* record_entry(key, generation).value(): what update_ttl / persist read the bytes of the new
+   generation from.  Exact generation only; the reference bit is not touched.               *)
+Peek(k, g) ==
+  /\ g # 0 /\ Usable(k, g)
+  /\ UNCHANGED <<bk, hand, mem, high, low, gst, rm>>
+  /\ LET row == bk[BucketOf[k]]
+         idx == {i \in DOMAIN row : row[i].k = k /\ row[i].g = g}
+     IN last' = IF idx = {} THEN <<"peek", k, g, 0, "miss", 0>> ELSE <<"peek", k, g, 0, "hit", row[MinOf(idx)].g>>
+
 Remove(k, g) ==
   /\ Usable(k, g)
   /\ UNCHANGED <<hand, high, low, gst>>
@@ -196,7 +205,7 @@ DropGen(k, g) ==
   /\ last' = <<"dropgen", k, g, 0, "ok", 0>>
 
 Next == \/ \E k \in Keys : \E t \in TagsOf(k), sz \in Sizes : Insert(k, t, sz)
-        \/ \E k \in Keys : \E g \in TagsOf(k) : Get(k, g) \/ Remove(k, g)
+        \/ \E k \in Keys : \E g \in TagsOf(k) : Get(k, g) \/ Remove(k, g) \/ Peek(k, g)
         \/ Evict \/ Clear
         \/ \E w \in WMs : SetWM(w[1], w[2])
         \/ \E k \in Keys : \E g \in GensOf[k] : Retire(k, g) \/ DropGen(k, g)
@@ -215,7 +224,7 @@ MemExact == mem = SumSz(Flat(bk))
    the entry served is tagged with exactly that generation (so an untagged entry is never
    served to a generation-qualified lookup).  An unqualified lookup may hit anything.   *)
 HitOnlyExactGen ==
-  [][ (last'[1] = "get" /\ last'[5] = "hit") =>
+  [][ (last'[1] \in {"get", "peek"} /\ last'[5] = "hit") =>
         LET k == last'[2]  g == last'[3]  t == last'[6]  F == Flat(bk) IN
           /\ (g # 0 => t = g)
           /\ \E i \in DOMAIN F : F[i].k = k /\ F[i].g = t ]_cvars
@@ -225,7 +234,7 @@ HitOnlyExactGen ==
    next Insert call for k.  (Clear and eviction only remove, they discharge nothing.)    *)
 Absent(k, t) == rm[k][1] \/ t \in rm[k][2]
 RemoveThenMiss ==
-  [][ (last'[1] = "get" /\ last'[5] = "hit") => ~Absent(last'[2], last'[6]) ]_cvars
+  [][ (last'[1] \in {"get", "peek"} /\ last'[5] = "hit") => ~Absent(last'[2], last'[6]) ]_cvars
 
 (* Entries of keys other than `xk` that are in s and no longer in s2. *)
 Gone(s, s2, xk) == SelectSeq(s, LAMBDA e : e.k # xk /\ ~Has(s2, e))
